@@ -52,6 +52,8 @@ func C03(e *Env) {
 	c11LanguagesOf(e, tv)
 	r.Rule("R11.2", "the token and argument grammars (reference name, fn(args), @service, !tagged, !value and the three prefixes) accept exactly the documented language for all strings, as compiled and as used (shared with C11): an unknown function, a malformed token or trailing text after a call is rejected at build time", 8)
 	c03GoCode(e)
+	c03Shapes(e, "R03.7")
+	r.Rule("R03.7", "engine F: on every path (arguments present or not, import present or not) each token factory emits a Go function literal, and the function token calls callProvider(<fn>, <the token's arguments>)", 5)
 	percentToken(e, "R03.6")
 	r.Rule("R03.6", "%% is the literal %: the doubled-delimiter factory accepts exactly the doubled delimiter and generates a provider that returns the single delimiter", 2)
 	c06Recorded(e)
